@@ -1295,7 +1295,16 @@ class SplitKey(Key):
 
     @prime_field_size.setter
     def prime_field_size(self, value):
-        if (value is None) or (isinstance(value, six.integer_types)):
+        if value is None:
+            self._prime_field_size = value
+        elif isinstance(value, six.integer_types):
+            # The column is a 64-bit signed integer; a larger value cannot
+            # be stored (the database driver raises OverflowError on commit).
+            if not (-2 ** 63 <= value < 2 ** 63):
+                raise ValueError(
+                    "The prime field size must fit in a 64-bit signed "
+                    "integer."
+                )
             self._prime_field_size = value
         else:
             raise TypeError("The prime field size must be an integer.")
